@@ -4,5 +4,6 @@ CONSTANTS
   MaxIntr = 0
   MaxFault = 0
   Helpers = {"slice_read", "slice_read_vectored", "read_at", "read_vectored_at", "cursor_read", "cursor_read_vectored", "vec_write", "vec_write_vectored", "slice_write", "slice_write_vectored", "arr_write_at", "arr_write_vectored_at", "vec_write_at", "vec_write_vectored_at", "cursor_vec_write", "cursor_vec_write_vectored"}
+  Fixed = {}
 SPECIFICATION MemSpec
 INVARIANTS MemStrict
